@@ -207,7 +207,19 @@ def make_map(label_at=None):
     entry(32768, 'c', '', [(3, 'CALL 32784'), (3, 'JP 32787'), (2, 'JR 32768'), (2, 'DJNZ 32771'), (3, 'LD HL,49152'), (3, 'CALL 24579'), (1, 'RET')])
     entry(32784, 'c', '', [(3, 'JP 32774'), (3, 'CALL 32768'), (2, 'JR 32784'), (1, 'RET')])
     entry(49152, 'w', '', [(2, 'DEFW 32771'), (2, 'DEFW 32784'), (2, 'DEFW 49152')])
-    entry(24576, 'c', 'load', [(3, 'JP 24579'), (3, 'CALL 32787'), (1, 'RET')])
+    entry(24576, 'c', '', [(3, 'JP 24579'), (3, 'CALL 32787'), (1, 'RET')])
+    for e in ents.values():
+        e.home = 'load' if e.address == 24576 else 'main'
+    # the stub entry @remote=load:24576,24579 creates in the main disassembly
+    stub = entry(-1, 'c', 'load', [])
+    del ents[-1]
+    stub.address, stub.addr_str, stub.home = 24576, '24576', 'load'
+    for a in (24576, 24579):
+        i = Instr()
+        i.address, i.addr_str, i.bytes, i.operation, i.container = a, str(a), [], '', stub
+        i.reference, i.mid_block_comment, i.comment, i.ctl, i.asm_label = None, None, None, ' ', None
+        stub.instructions.append(i)
+    ents['stub'] = stub
     return ents
 
 def run_operands(ctx, repo):
@@ -225,20 +237,22 @@ def run_operands(ctx, repo):
                         ents = make_map(label_at)
                         main = [ents[a] for a in (32768, 32784, 49152)]
                         other = [ents[24576]]
-                        table = {}
-                        for e in ents.values():
-                            for i in e.instructions:
-                                table[i.address] = i
-                        for e in ents.values():
-                            for i in e.instructions:
-                                m = _re.search(r'(\d{5})$', i.operation)
-                                if m and int(m.group(1)) in table and not i.operation.startswith('LD'):
-                                    t = table[int(m.group(1))]
-                                    if t.container.asm_id == e.asm_id:
+                        stub = {i.address: i for i in ents['stub'].instructions}
+                        for group, remote in ((main, stub), (other, {})):
+                            table = {}
+                            for e in group:
+                                for i in e.instructions:
+                                    table[i.address] = i
+                            for e in group:
+                                for i in e.instructions:
+                                    m = _re.search(r'(\d{5})$', i.operation)
+                                    t = m and not i.operation.startswith('LD') and (table.get(int(m.group(1))) or remote.get(int(m.group(1))))
+                                    if t:
                                         r = Ref()
                                         r.address, r.entry, r.addr_str, r.use_label = t.address, t.container, m.group(1), True
                                         i.reference = r
-                        w.parser = Parser({a: i for a, i in table.items() if not i.container.asm_id}, {})
+                        table = {i.address: i for e in main for i in e.instructions}
+                        w.parser = Parser(table, {})
                         w.link_operands = ('CALL', 'DEFW', 'DJNZ', 'JP', 'JR')
                         w.link_internal_operands = lio
                         w.lio_min_distance = 0
@@ -250,12 +264,24 @@ def run_operands(ctx, repo):
                             w.code_id = code_id
                             w.asm_entry_dicts = {}
                             for idx, e in enumerate(group):
-                                d = cf.call(w, '_get_asm_entry', cwd, idx, 'maps/all.html')
                                 if single:
                                     page = PATHS['AsmSinglePage' if code_id == 'main' else 'load-AsmSinglePage']
                                 else:
                                     page = posixpath.join(PATHS['CodePath' if code_id == 'main' else 'load-CodePath'], fname_t.format(address=e.address))
+                                cwd = posixpath.dirname(page)       # HtmlWriter._set_cwd
+                                d = cf.call(w, '_get_asm_entry', cwd, idx, 'maps/all.html')
                                 ids = pages.setdefault(page, set())
+                                # the memory-map page gives each entry id="{entry[anchor]}" from the same dictionary builder
+                                want_map = posixpath.relpath('maps/all.html', cwd) + '#' + anchor_t.format(address=e.address)
+                                want_href = posixpath.relpath(page, cwd) + ('#' + anchor_t.format(address=e.address) if single else '')
+                                for fld, want in (('map_href', want_map), ('href', want_href), ('anchor', anchor_t.format(address=e.address))):
+                                    if d.get(fld) != want:
+                                        key = (fld, single)
+                                        if key not in reported:
+                                            reported.add(key)
+                                            ctx.violation('HtmlWriter._get_asm_entry_dict `%s` (%s)' % (fld, 'single page' if single else 'multi-page'), where, 'entry %d, cwd=%s, AddressAnchor=%s CodeFiles=%s: %s is %r; the target is %r' % (e.address, cwd, anchor_t, fname_t, fld, d.get(fld), want))
+                                    else:
+                                        ctx.ok()
                                 # Template:asm / asm_single_page: id="{$instruction[anchor]}" once per instruction (C16.1)
                                 for inst, di in zip(e.instructions, d['instructions']):
                                     want = anchor_t.format(address=inst.address)
@@ -279,9 +305,9 @@ def run_operands(ctx, repo):
                             target = posixpath.normpath(posixpath.join(posixpath.dirname(page), path)) if path else page
                             ref = inst.reference
                             if single:
-                                want_page = PATHS['AsmSinglePage' if not ref.entry.asm_id else 'load-AsmSinglePage']
+                                want_page = PATHS['AsmSinglePage' if ref.entry.home == 'main' else 'load-AsmSinglePage']
                             else:
-                                want_page = posixpath.join(PATHS['CodePath' if not ref.entry.asm_id else 'load-CodePath'], fname_t.format(address=ref.entry.address))
+                                want_page = posixpath.join(PATHS['CodePath' if ref.entry.home == 'main' else 'load-CodePath'], fname_t.format(address=ref.entry.address))
                             want_id = anchor_t.format(address=ref.address)
                             problem = None
                             if target != want_page:
@@ -301,3 +327,46 @@ def run_operands(ctx, repo):
                                 ctx.ok({'instruction': '%d %s' % (inst.address, inst.operation), 'page': page, 'href': href})
                     except NotLiteral as e:
                         ctx.limit('%s/%s/%s' % (anchor_t, single, lio), '_get_asm_entry not foldable: %s' % str(e)[:160])
+
+# ---------------------------------------------------------------------------------------------------------------------------------
+# C16.9-link-macro (*fold*): HtmlWriter.expand_link on #LINK macros naming memory-map pages (with decimal entry-address anchors, which the
+# manual says are converted to the AddressAnchor format - the id the map gives the entry), box pages with textual anchors, and pages
+# without anchors.
+def run_link(ctx, repo):
+    confs = ['{address}', '{address:04x}', 'a{address:04X}']
+    cwds = ['asm', 'maps', '.', 'reference/x']
+    paths = {'MemoryMap': 'maps/all.html', 'DataMap': 'maps/data.html', 'Facts': 'reference/facts.html', 'Custom': 'x/custom.html'}
+    cases = [('#LINK(MemoryMap#32768)(x)', 'MemoryMap', 32768, None), ('#LINK(MemoryMap#32784)()', 'MemoryMap', 32784, None), ('#LINK(DataMap#65520)(d)', 'DataMap', 65520, None),
+             ('#LINK(MemoryMap)(m)', 'MemoryMap', None, ''), ('#LINK(Facts#fact1)(f)', 'Facts', None, '#fact1'), ('#LINK(Facts#fact2)()', 'Facts', None, '#fact2'),
+             ('#LINK(Custom#32768)(c)', 'Custom', None, '#32768'), ('#LINK(MemoryMap#32770)(x)', 'MemoryMap', None, '#32770'), ('#LINK(Custom)()', 'Custom', None, '')]
+    n = len(confs) * len(cwds) * len(cases)
+    ctx.rule('C16.9-link-macro', 'HtmlWriter.expand_link folded on %d #LINK forms x %d AddressAnchor templates x %d current directories: the href is the relative path of the page and, on a memory map, an entry-address anchor becomes the id the map gives the entry' % (len(cases), len(confs), len(cwds)), floor=n - 10)
+    where = 'skoolkit/skoolhtml.py'
+    cf = ClassFolder(repo, 'skoolhtml', _hook)
+    reported = set()
+    for anchor_t in confs:
+        try:
+            w = make_writer(cf, anchor_t, '{address}.html', False)
+        except (NotLiteral, FactError) as e:
+            ctx.limit('writer', 'HtmlWriter model not constructible: %s' % str(e)[:120])
+            continue
+        w.paths.update(paths)
+        w.page_ids = ['Facts', 'Custom']
+        w.box_pages = {'Facts': [('fact1', 'Fact one', ['p']), ('fact2', 'Fact two', ['p'])]}
+        w.links = {k: (k + ' page', '') for k in paths}
+        w.main_memory_maps = ['MemoryMap', 'DataMap']
+        for cwd in cwds:
+            for text, page, entry, frag in cases:
+                want = posixpath.relpath(paths[page], cwd) + ('#' + anchor_t.format(address=entry) if entry is not None else frag)
+                try:
+                    got = cf.call_func('skoolmacro', 'expand_macros', [w, text, cwd])
+                except NotLiteral as e:
+                    ctx.limit(text, 'expand_link not foldable on this text: %s' % str(e)[:120])
+                    continue
+                except Exception as e:
+                    got = '%s: %s' % (type(e).__name__, str(e)[:100])
+                if got.startswith('<a href="%s">' % want):
+                    ctx.ok({'text': text, 'cwd': cwd, 'href': want})
+                elif text not in reported:
+                    reported.add(text)
+                    ctx.violation('HtmlWriter.expand_link `%s`' % text, where, '%s with AddressAnchor=%s cwd=%s expands to %s; the target is href="%s"' % (text, anchor_t, cwd, got[:90], want))
